@@ -1104,6 +1104,16 @@ def rule_match(ctx):
     ctx.ob("FileSet.match.no_files", quiet, "no_files_error handed to the two find() calls: %s" % nfe,
            "no_files_error=False for both: a period that lies in a gap of one fileset yields no match instead of raising NoFilesError", node=prim[0], func=f,
            witness=None if quiet else {"B": "files 00h, 01h, 04h, 05h", "A.match(B, '02:10', '02:50', max_interval=300)": "NoFilesError", "expected": "nothing yielded"})
+    # time order: the primaries are yielded in the order of find(), the partners as sorted tree indices - positions in the list of the
+    # secondaries, which are in time order only if find() sorted them (its default)
+    srt = [({k_.arg: str(norm(k_.value)) for k_ in c_.keywords}.get("sort")) for c_ in (prim[0], sec[0])]
+    if any(v_ not in (None, "False", "True") for v_ in srt):
+        raise AnalysisError("match(): sort=%s handed to find() not understood" % srt)
+    ordered = all(v_ in (None, "True") for v_ in srt)
+    ctx.ob("FileSet.match.time_order", ordered, "sort handed to the two find() calls: %s" % srt,
+           "both file lists come from find() in time order (sort left at its default): `sorted(overlapping indices)` orders positions in that list, "
+           "an unsorted list gives the partners in directory-listing order", node=sec[0], func=f,
+           witness=None if ordered else {"secondaries": "{platform}_{year}{month}{day}... of several platforms", "partners": "in name order, not in time order"})
     for c, who in ((prim[0], "primary"), (sec[0], "secondary")):
         bound = {}
         for i_, a_ in enumerate(c.args[:2]):
